@@ -407,32 +407,38 @@ def validate_traces(ck, prop, good, bad):
         cfg = cfg.replace(allinv, "INVARIANTS " + INV[prop] + "\n")
         cfgp = os.path.join(tmpd, "RemediationTrace-%s.cfg" % prop)
         open(cfgp, "w").write(cfg)
-        tr = os.path.join(tmpd, "trace.ndjson")
-        n = write_trace(tr, good)
-        os.environ["VERIF_TRACE"] = tr
-        r = vf.tlc("RemediationTrace", cfgp, workers=1, collect=False, timeout=1500, heap="8g")
-        ck.add_tlc("RemediationTrace (%d traces, %d events, Devs=%s)" % (len(good), n, devs), r)
-        if not r.ok:
-            keep = os.path.join(vf.VERIF, "replays", "%s-trace-rejected.ndjson" % prop)
-            os.makedirs(os.path.dirname(keep), exist_ok=True)
-            shutil.copyfile(tr, keep)
-            msg = ("RemediationTrace rejects (%s) a recorded pipeline on which the harness oracle found no %s violation: "
-                   "the code diverges from the transcribed pipeline without breaking the property, or spec and harness disagree "
-                   "(trace kept at %s)" % (r.violated, prop, keep))
-            if not ck.violations:
-                vf.log(r.output_tail[-3000:])
-                raise vf.NotAVerdict(msg)
-            # the real code already violated the property elsewhere in this run: that verdict stands
-            ck.cov["trace_divergence"] = msg
-            vf.log("[trace] " + msg)
-        else:
-            ck.cov["traces_validated_against_impl"] += len(good)
-        ck.cov["trace_events"] = n
+        CHUNK = 12000                      # traces per TLC run (ndJsonDeserialize holds the whole file in memory)
+        nev = 0
+        for ci in range(0, max(1, len(good)), CHUNK):
+            part = good[ci:ci + CHUNK]
+            tr = os.path.join(tmpd, "trace%d.ndjson" % ci)
+            n = write_trace(tr, part)
+            nev += n
+            os.environ["VERIF_TRACE"] = tr
+            r = vf.tlc("RemediationTrace", cfgp, workers=1, collect=False, timeout=1500, heap="8g")
+            ck.add_tlc("RemediationTrace (%d traces, %d events, Devs=%s)" % (len(part), n, devs), r)
+            if not r.ok:
+                keep = os.path.join(vf.VERIF, "replays", "%s-trace-rejected.ndjson" % prop)
+                os.makedirs(os.path.dirname(keep), exist_ok=True)
+                shutil.copyfile(tr, keep)
+                msg = ("RemediationTrace rejects (%s) a recorded pipeline on which the harness oracle found no %s violation: "
+                       "the code diverges from the transcribed pipeline without breaking the property, or spec and harness disagree "
+                       "(trace kept at %s)" % (r.violated, prop, keep))
+                if not ck.violations:
+                    vf.log(r.output_tail[-3000:])
+                    raise vf.NotAVerdict(msg)
+                # the real code already violated the property elsewhere in this run: that verdict stands
+                ck.cov["trace_divergence"] = msg
+                vf.log("[trace] " + msg)
+            else:
+                ck.cov["traces_validated_against_impl"] += len(part)
+            os.remove(tr)
+        ck.cov["trace_events"] = nev
         # the pipelines the harness oracle rejected must be rejected by the specification too
         mine = [o for o in bad if any(f["prop"] == prop for f in o["findings"]) and
                 any(e["ev"] == "Base" or (e["ev"] == "Vulns" and e["run"] == 2) for e in o["trace"]) and
                 not any(f["kind"] in ("panic", "hang", "reanalysis-failed", "unreadable") for f in o["findings"])]
-        for o in mine[:25]:
+        for o in mine[:5]:
             tr1 = os.path.join(tmpd, "bad.ndjson")
             write_trace(tr1, [o])
             os.environ["VERIF_TRACE"] = tr1
